@@ -13,6 +13,7 @@ import (
 	"os"
 	"strconv"
 	"strings"
+	"sync"
 )
 
 type NilV struct{}
@@ -171,6 +172,9 @@ func fltConst(f float64, is32 bool) Val {
 	return Flt{fmt.Sprintf("((_ to_fp 11 53) #x%016x)", bits), 64}
 }
 
+// litContent: the text of every string literal term, so that two literals are compared by content
+var litContent sync.Map
+
 // string literals are self-describing array terms (no declarations needed).
 func strLit(s string) Val {
 	if s == "" {
@@ -180,6 +184,7 @@ func strLit(s string) Val {
 	for i := 0; i < len(s); i++ {
 		t = "(store " + t + " " + strconv.Itoa(i) + " " + strconv.Itoa(int(s[i])) + ")"
 	}
+	litContent.Store(t, s)
 	return Str{t, "0", strconv.Itoa(len(s))}
 }
 
